@@ -2,6 +2,7 @@ package c01
 
 import (
 	"fmt"
+	"math/big"
 	"strings"
 	"sync"
 	"sync/atomic"
@@ -10,6 +11,7 @@ import (
 	"github.com/youchainhq/go-youchain/consensus"
 	"github.com/youchainhq/go-youchain/consensus/ucon"
 	"github.com/youchainhq/go-youchain/core/types"
+	"github.com/youchainhq/go-youchain/event"
 	"github.com/youchainhq/go-youchain/params"
 	"github.com/youchainhq/go-youchain/rlp"
 	"github.com/youchainhq/go-youchain/youdb"
@@ -44,19 +46,48 @@ type HHdr struct {
 	CBlk   int    `json:"cert_signatures_over_sibling_hash"` // certificate rounds: same for the certificate votes
 	CIdx   int    `json:"cert_signatures_over_other_index"`
 	CSub   string `json:"certificate_list,omitempty"`
+	// Borrowed credentials: every entitled member other than the lender (the member with the most seats) lists an entry
+	// of its own (own voter index, own signature, summed into the aggregate) carrying the LENDER's sortition proof and
+	// the seat count the lender's VRF output yields with the borrower's stake.  "alone": the lender's genuine vote is
+	// not listed; "after" / "before": it is, first / last in the list.
+	Bor  string `json:"borrowed_precommit_credentials,omitempty"`
+	CBor string `json:"borrowed_certificate_credentials,omitempty"`
 }
 
 func (h HHdr) key() string {
-	return fmt.Sprintf("b%d.u%d.c%d.s%d%d.%s.C%d%d.%s", h.Blk, h.UV, h.Cred, h.SigBlk, h.SigIdx, h.Sub, h.CBlk, h.CIdx, h.CSub)
+	k := fmt.Sprintf("b%d.u%d.c%d.s%d%d.%s.C%d%d.%s", h.Blk, h.UV, h.Cred, h.SigBlk, h.SigIdx, h.Sub, h.CBlk, h.CIdx, h.CSub)
+	if h.Bor != "" || h.CBor != "" {
+		k += ".B" + h.Bor + "." + h.CBor
+	}
+	return k
 }
 
 // ownVotes: nothing but honest votes for this very header (possibly fewer than all).
 func (h HHdr) ownVotes() bool {
-	return h.Cred == 0 && h.SigBlk == 0 && h.SigIdx == 0 && h.CBlk == 0 && h.CIdx == 0
+	return h.Cred == 0 && h.SigBlk == 0 && h.SigIdx == 0 && h.CBlk == 0 && h.CIdx == 0 && h.Bor == "" && h.CBor == ""
+}
+
+func borrowText(kind, bor string) string {
+	s := kind + " of every member but one carrying that one member's (the lender's) sortition proof, "
+	switch bor {
+	case "alone":
+		return s + "the lender's genuine vote not listed"
+	case "after":
+		return s + "listed after the lender's genuine vote"
+	}
+	return s + "listed before the lender's genuine vote"
 }
 
 // honest: what an honest committee produces.
-func (h HHdr) honest() bool { return h.ownVotes() && h.Sub == "" && h.CSub == "" }
+func (h HHdr) honest() bool { return h.ownVotes() && h.Sub == "" && h.CSub == "" && h.Blk != blkBorrowedProposer }
+
+// Blocks of the family: B1, its sibling B2, B3 = the honest proposal of another member (the lender of a proposer
+// credential) for the same (round, index), B4 = a block of the fixture's proposer carrying B3's proposer credential
+// (the lender's proof bytes; seat count and priority as the lender's VRF output yields with the proposer's stake).
+const (
+	blkLender           = 2
+	blkBorrowedProposer = 3
+)
 
 func votesText(kind string, cred, blk, idx int, sub string) string {
 	switch {
@@ -91,11 +122,24 @@ func votesText(kind string, cred, blk, idx int, sub string) string {
 // class: what the header is, independent of which of the two blocks it is.
 func (h HHdr) class(cert bool) string {
 	s := votesText("precommits", h.Cred, h.SigBlk, h.SigIdx, h.Sub)
+	if h.Bor != "" {
+		s = borrowText("precommits", h.Bor)
+	}
 	if h.UV == 1 {
 		s += ", vote record at the next round index"
 	}
+	switch h.Blk {
+	case blkLender:
+		s = "the honest proposal of another member, the lender of a proposer credential; " + s
+	case blkBorrowedProposer:
+		s = "proposed under the LENDER's proposer credential (its proof bytes, seat count and priority recomputed with the proposer's stake); " + s
+	}
 	if cert {
-		s += " and " + votesText("certificate votes", 0, h.CBlk, h.CIdx, h.CSub)
+		if h.CBor != "" {
+			s += " and " + borrowText("certificate votes", h.CBor)
+		} else {
+			s += " and " + votesText("certificate votes", 0, h.CBlk, h.CIdx, h.CSub)
+		}
 	}
 	return s
 }
@@ -104,6 +148,9 @@ func (h HHdr) class(cert bool) string {
 func (h HHdr) parts() []string {
 	var ps []string
 	add := func(kind string, cred, blk, idx int, sub string) {
+		if (kind == "precommit" && h.Bor != "") || (kind == "certificate vote" && h.CBor != "") {
+			ps = append(ps, kind+" credentials borrowed from another member (its sortition proof listed under other members' keys)")
+		}
 		if cred == 1 {
 			ps = append(ps, kind+" credentials of another round index")
 		}
@@ -117,6 +164,9 @@ func (h HHdr) parts() []string {
 			ps = append(ps, "fewer "+kind+"s than the quorum under the same header hash")
 		}
 	}
+	if h.Blk == blkBorrowedProposer {
+		ps = append(ps, "proposer credential made by another member's key")
+	}
 	add("precommit", h.Cred, h.SigBlk, h.SigIdx, h.Sub)
 	add("certificate vote", 0, h.CBlk, h.CIdx, h.CSub)
 	return ps
@@ -128,7 +178,13 @@ func (h HHdr) deviations() int { return len(h.parts()) }
 type HOp struct {
 	H     HHdr   `json:"header"`
 	Entry string `json:"entry_point"`
+	// Live (Entry == liveEntry): not a header verification but a vote MESSAGE handled by the live vote path of the same
+	// Server (a mining node's wiring without its goroutines): the lender's genuine "precommit" / "certificate" vote
+	// for block H.Blk at the proposal's round index.
+	Live string `json:"live_vote_message,omitempty"`
 }
+
+const liveEntry = "live vote message (Voter.processVoteMsg -> Server.verifySortition)"
 
 // HSpec is the replayable input of one history case.
 type HSpec struct {
@@ -145,7 +201,7 @@ type hist struct {
 	x       *ctx
 	chain   consensus.ChainReader
 	pl      *planted
-	blocks  [2]*types.Block
+	blocks  []*types.Block // B1, its sibling B2 [, B3 = the honest proposal of another member (the lender) for the same (round, index), B4 = a block of the fixture's proposer carrying the lender's proposer credential]
 	entries map[string]Entry
 	mu      sync.Mutex
 	built   map[string]*Forged // HHdr key -> header + ground truth
@@ -164,9 +220,23 @@ func (x *ctx) newHist() (*hist, error) {
 		return nil, fmt.Errorf("planted look-back header rejected: %s", h.pl.err)
 	}
 	for k := 0; k < 2; k++ {
-		if h.blocks[k], _, err = c.ProposeWith(c.Proposer, c.HonestRI, ProposalOpts{Sibling: k}); err != nil {
+		b, _, err := c.ProposeWith(c.Proposer, c.HonestRI, ProposalOpts{Sibling: k})
+		if err != nil {
 			return nil, err
 		}
+		h.blocks = append(h.blocks, b)
+	}
+	// a borrowed PROPOSER credential: needs another entitled member with a proposer seat at this round index
+	if y, lend := c.proposerLenderMember(c.Proposer, c.HonestRI, c.CP.ProposerThreshold), c.proposerLender(c.Proposer, c.HonestRI, c.CP.ProposerThreshold); y != nil && lend != nil {
+		b3, _, err := c.ProposeWith(y, c.HonestRI, ProposalOpts{Sibling: 2})
+		if err != nil {
+			return nil, err
+		}
+		b4, _, err := c.ProposeWith(c.Proposer, c.HonestRI, ProposalOpts{Sibling: 3, Cred: lend})
+		if err != nil {
+			return nil, err
+		}
+		h.blocks = append(h.blocks, b3, b4)
 	}
 	if h.blocks[0].Hash() == h.blocks[1].Hash() {
 		return nil, fmt.Errorf("sibling block has the same hash")
@@ -185,6 +255,9 @@ func (hs *hist) build(d HHdr) (*Forged, error) {
 		return f, nil
 	}
 	c := hs.x.c
+	if d.Blk < 0 || d.Blk >= len(hs.blocks) {
+		return nil, fmt.Errorf("the family has no block %d", d.Blk+1)
+	}
 	f := &Forged{Cert: c.IsCert, Chain: hs.chain}
 	if hs.pl != nil {
 		pcd, err := ucon.GetConsensusDataFromHeader(hs.pl.header)
@@ -197,22 +270,47 @@ func (hs *hist) build(d HHdr) (*Forged, error) {
 	round := header.Number
 	ri := c.HonestRI
 	uvIndex := ri + uint32(d.UV)
-	material := func(view *SetView, seed common.Hash, step uint32, th uint64, cred, blk, idx int, sub string) (list []listed) {
+	material := func(view *SetView, seed common.Hash, step uint32, th uint64, cred, blk, idx int, sub, bor string) (list []listed) {
 		credIndex := ri + uint32(d.UV^cred)
 		pay := VotePayload(hs.blocks[d.Blk^blk].Hash(), round, ri+uint32(d.UV^idx))
+		// borrowed credentials: the lender is the member with the most seats (what a coalition would pick)
+		var lender *Member
+		var lent *Cred
+		if bor != "" {
+			lender, lent = c.lender(view, seed, credIndex, step, th)
+		}
+		var genuine []listed // the lender's genuine vote
 		for i, m := range c.Voters {
 			if sub == "none" || (sub == "one" && i > 0) {
 				continue
 			}
 			rec := view.Rec(m.Name)
-			if cr := c.SortitionIn(view.Total, m, seed, credIndex, step, th, rec.Stake); cr.J > 0 {
-				list = append(list, listed{Vote: ucon.SingleVote{VoterIdx: uint32(rec.Index), Votes: cr.J, Proof: cr.Proof}, Signer: m, Sig: c.BlsSign(m, pay), Pay: pay})
+			cr := c.SortitionIn(view.Total, m, seed, credIndex, step, th, rec.Stake)
+			votes, proof := cr.J, cr.Proof
+			if lender != nil && m != lender {
+				// the lender's VRF output evaluated with this member's stake, under the lender's proof
+				votes, proof = c.SortitionIn(view.Total, lender, seed, credIndex, step, th, rec.Stake).J, lent.Proof
 			}
+			if votes == 0 || (lent != nil && lent.J == 0) {
+				continue
+			}
+			e := listed{Vote: ucon.SingleVote{VoterIdx: uint32(rec.Index), Votes: votes, Proof: proof}, Signer: m, Sig: c.BlsSign(m, pay), Pay: pay}
+			if m == lender {
+				genuine = append(genuine, e)
+			} else {
+				list = append(list, e)
+			}
+		}
+		switch bor {
+		case "after":
+			list = append(genuine, list...)
+		case "before":
+			list = append(list, genuine...)
 		}
 		return
 	}
 	var err error
-	pre := material(c.True, c.LBSeed, uint32(ucon.Precommit), c.CP.ValidatorThreshold, d.Cred, d.SigBlk, d.SigIdx, d.Sub)
+	pre := material(c.True, c.LBSeed, uint32(ucon.Precommit), c.CP.ValidatorThreshold, d.Cred, d.SigBlk, d.SigIdx, d.Sub, d.Bor)
 	uv := &ucon.UconValidators{RoundIndex: uvIndex, MCAggrSig: []byte{}, CCAggrSig: []byte{}}
 	if uv.SCAggrSig, f.AggKind, f.AggOf, err = sumAgg(pre); err != nil {
 		return nil, err
@@ -222,7 +320,7 @@ func (hs *hist) build(d HHdr) (*Forged, error) {
 	}
 	uc := &ucon.UconValidators{RoundIndex: uvIndex}
 	if c.IsCert {
-		certs := material(c.CertView, f.CertSeed, uint32(ucon.Certificate), c.CP.CertValThreshold, 0, d.CBlk, d.CIdx, d.CSub)
+		certs := material(c.CertView, f.CertSeed, uint32(ucon.Certificate), c.CP.CertValThreshold, 0, d.CBlk, d.CIdx, d.CSub, d.CBor)
 		uc = &ucon.UconValidators{RoundIndex: uvIndex, SCAggrSig: []byte{}, MCAggrSig: []byte{}}
 		if uc.CCAggrSig, f.CertAggKind, f.CertAggOf, err = sumAgg(certs); err != nil {
 			return nil, err
@@ -241,6 +339,73 @@ func (hs *hist) build(d HHdr) (*Forged, error) {
 	hs.built[d.key()] = f
 	hs.oracle[d.key()] = Oracle(c, f)
 	return f, nil
+}
+
+// lender: the entitled member with the most seats for (seed, index, step) and its genuine credential.
+func (c *Config) lender(view *SetView, seed common.Hash, index, step uint32, th uint64) (lender *Member, lent *Cred) {
+	for _, m := range c.Voters {
+		if cr := c.SortitionIn(view.Total, m, seed, index, step, th, view.Rec(m.Name).Stake); lent == nil || cr.J > lent.J {
+			lender, lent = m, cr
+		}
+	}
+	return
+}
+
+type nopInserter struct{}
+
+func (nopInserter) Insert(*types.Block) error { return nil }
+
+// newNode: a Server wired as StartMining wires it (Voter, MessageHandler, Proposal, sortition manager; hook
+// ucon.VerifC03P2NewNode: no timer, no subscription, no goroutine) for a node that is not a validator, standing at
+// the round and round index of the block under verification.
+func (hs *hist) newNode() (*ucon.VerifC03P2Node, error) {
+	c := hs.x.c
+	round := new(big.Int).SetUint64(c.Round)
+	n, err := ucon.VerifC03P2NewNode(youdb.NewMemDatabase(), hs.chain, nopInserter{}, new(event.TypeMux), c.Outsider.Key, c.Outsider.BlsSk, round, c.HonestRI)
+	if err != nil {
+		return nil, err
+	}
+	n.DeliverContext(ucon.ContextChangeEvent{Round: round, RoundIndex: c.HonestRI, Step: ucon.UConStepProposal, Certificate: c.IsCert})
+	return n, nil
+}
+
+// applyLive hands the lender's genuine vote to the node's live vote path exactly as MessageHandler.HandleMsg does
+// for a message of the node's own round and round index.
+func (hs *hist) applyLive(n *ucon.VerifC03P2Node, op HOp) (pathRes, error) {
+	c := hs.x.c
+	blk := hs.blocks[op.H.Blk]
+	cd, err := ucon.GetConsensusDataFromHeader(blk.Header())
+	if err != nil {
+		return pathRes{}, err
+	}
+	ri := c.HonestRI
+	view, seed, vt, th := c.True, c.LBSeed, ucon.Precommit, c.CP.ValidatorThreshold
+	switch op.Live {
+	case "precommit":
+	case "certificate":
+		if hs.pl == nil {
+			return pathRes{}, fmt.Errorf("certificate vote message outside a certificate round")
+		}
+		pcd, err := ucon.GetConsensusDataFromHeader(hs.pl.header)
+		if err != nil {
+			return pathRes{}, err
+		}
+		view, seed, vt, th = c.CertView, pcd.Seed, ucon.Certificate, c.CP.CertValThreshold
+	default:
+		return pathRes{}, fmt.Errorf("unknown live vote %q", op.Live)
+	}
+	lender, lent := c.lender(view, seed, ri, uint32(vt), th)
+	if lent.J == 0 {
+		return pathRes{}, fmt.Errorf("the lender has no seat")
+	}
+	sv := &ucon.SingleVote{VoterIdx: uint32(view.Rec(lender.Name).Index), Votes: lent.J, Proof: lent.Proof,
+		Signature: c.BlsSign(lender, VotePayload(blk.Hash(), blk.Number(), ri))}
+	msg := &ucon.BlockHashWithVotes{Priority: cd.Priority, BlockHash: blk.Hash(), Round: blk.Number(), RoundIndex: ri, Vote: sv, Timestamp: 1}
+	p := runPath(liveEntry, func() error {
+		err, _ := n.Voter.VerifC02ProcessVote(vt, msg, lender.Addr, ucon.VerifC02MsgSame)
+		return err
+	})
+	return p, nil
 }
 
 // sumAgg: the aggregate of exactly the listed signatures, with its ground truth.
@@ -325,7 +490,11 @@ func (hs *hist) alphabet() []HHdr {
 				out = append(out, HHdr{Blk: blk, UV: uv, Sub: "one"}, HHdr{Blk: blk, UV: uv, Sub: "none"})
 			}
 		}
-		return out
+		// borrowed precommit credentials (on the sibling block: first and last position of a sequence)
+		for _, b := range hs.borVals() {
+			out = append(out, HHdr{Blk: 1, Bor: b})
+		}
+		return append(out, hs.proposerFamily()...)
 	}
 	// certificate rounds: precommits own / the sibling's × certificate votes over (own | sibling's hash) × (own | other index), or fewer
 	for blk := 0; blk < 2; blk++ {
@@ -338,7 +507,29 @@ func (hs *hist) alphabet() []HHdr {
 			out = append(out, HHdr{Blk: blk, SigBlk: sb, CSub: "one"}, HHdr{Blk: blk, SigBlk: sb, CSub: "none"})
 		}
 	}
-	return out
+	// borrowed certificate credentials (borrowed precommit credentials: the precommit fixture)
+	for _, b := range hs.borVals() {
+		out = append(out, HHdr{Blk: 1, CBor: b})
+	}
+	return append(out, hs.proposerFamily()...)
+}
+
+// proposerFamily: the lender's honest block and the block under the borrowed proposer credential, each with the
+// honest votes for it.
+func (hs *hist) proposerFamily() []HHdr {
+	if len(hs.blocks) <= blkBorrowedProposer {
+		hs.x.r.Count("history: no_other_member_with_a_proposer_seat_at_the_round_index (no borrowed proposer credential)", 1)
+		return nil
+	}
+	return []HHdr{{Blk: blkLender}, {Blk: blkBorrowedProposer}}
+}
+
+// borVals: quick: the lender's genuine vote absent / listed first; thorough: also listed last.
+func (hs *hist) borVals() []string {
+	if hs.x.r.Quick() {
+		return []string{"alone", "after"}
+	}
+	return []string{"alone", "after", "before"}
 }
 
 // core: the sub-family used at the larger depth.
@@ -373,10 +564,29 @@ func (hs *hist) spec(ops []HOp) HSpec {
 
 // run executes the sequence on one fresh instance and returns its verdicts.
 func (hs *hist) run(ops []HOp) ([]pathRes, error) {
-	sv := newServer()
+	var sv *ucon.Server
+	var node *ucon.VerifC03P2Node
+	for _, op := range ops {
+		if op.Entry == liveEntry && node == nil {
+			var err error
+			if node, err = hs.newNode(); err != nil {
+				return nil, err
+			}
+			sv = node.Server
+		}
+	}
+	if sv == nil {
+		sv = newServer()
+	}
 	var out []pathRes
 	for _, op := range ops {
-		p, err := hs.apply(sv, op)
+		var p pathRes
+		var err error
+		if op.Entry == liveEntry {
+			p, err = hs.applyLive(node, op)
+		} else {
+			p, err = hs.apply(sv, op)
+		}
 		if err != nil {
 			return nil, err
 		}
@@ -402,10 +612,15 @@ func sameVerdicts(a, b []pathRes) bool {
 
 // rel: how an earlier header relates to the one whose verdict is wrong.
 func rel(earlier, last HHdr) string {
-	if earlier.Blk == last.Blk {
+	switch {
+	case earlier.Blk == last.Blk:
 		return "the same block"
+	case earlier.Blk == blkLender && last.Blk == blkBorrowedProposer:
+		return "the lender's own block"
+	case earlier.Blk^1 == last.Blk && last.Blk < 2:
+		return "the sibling block (other hash)"
 	}
-	return "the sibling block (other hash)"
+	return "another block of the same round and index"
 }
 
 func (hs *hist) describeOps(ops []HOp, res []pathRes) string {
@@ -420,6 +635,11 @@ func (hs *hist) describeOps(ops []HOp, res []pathRes) string {
 			if res[i].Panic != "" {
 				v = "PANIC: " + res[i].Panic
 			}
+		}
+		if op.Entry == liveEntry {
+			ls = append(ls, fmt.Sprintf("  %d. %s: the genuine %s vote of the member with the most seats (the lender) for block B%d %s at the node's round index -> %s",
+				i+1, op.Entry, op.Live, op.H.Blk+1, hs.blocks[op.H.Blk].Hash().TerminalString(), v))
+			continue
 		}
 		o := hs.verdict(op.H)
 		ls = append(ls, fmt.Sprintf("  %d. %s(block B%d %s: %s) -> %s   [oracle: accept=%v weight=%d/%d%s]", i+1, op.Entry, op.H.Blk+1,
@@ -487,6 +707,23 @@ func (hs *hist) checkSeq(ops []HOp) {
 			if ops[i-1].H == op.H {
 				r.Count("history: same_header_verified_again", 1)
 			}
+			if op.H.Blk == blkBorrowedProposer && ops[i-1].Entry != liveEntry && ops[i-1].H.Blk == blkLender && prev.Accept {
+				r.Count("history: borrowed_proposer_credential_after_the_lender's_own_header_was_accepted", 1)
+			}
+			if ops[i-1].Entry == liveEntry {
+				if !prev.Accept {
+					r.HarnessError(fmt.Sprintf("history: the live vote path rejects the lender's genuine %s vote: %s%s", ops[i-1].Live, prev.Err, prev.Panic))
+				} else if op.H.Bor != "" || op.H.CBor != "" {
+					r.Count("history: borrowed_credentials_after_the_live_vote_path_verified_the_lender's_genuine_vote_message", 1)
+				} else {
+					r.Count("history: honest_header_after_the_live_vote_path_verified_a_vote_message", 1)
+				}
+			} else if (op.H.Bor != "" || op.H.CBor != "") && prev.Accept && ops[i-1].H.honest() && ops[i-1].H.UV == op.H.UV {
+				r.Count("history: borrowed_credentials_after_a_header_with_the_lender's_genuine_vote_was_accepted", 1)
+				if op.H.Bor == "alone" || op.H.CBor == "alone" {
+					r.Count("history: borrowed_credentials_alone_after_a_header_with_the_lender's_genuine_vote_was_accepted", 1)
+				}
+			}
 		}
 		if p.Accept == want {
 			continue
@@ -509,6 +746,10 @@ func (hs *hist) checkSeq(ops []HOp) {
 		var earlier []string
 		dev := 0
 		for _, e := range ops[:i] {
+			if e.Entry == liveEntry {
+				earlier = append(earlier, "the lender's genuine "+e.Live+" vote message handled by the live vote path")
+				continue
+			}
 			earlier = append(earlier, rel(e.H, op.H)+" with "+e.H.class(cert))
 			dev += e.H.deviations()
 		}
@@ -585,9 +826,9 @@ func (x *ctx) exploreHist() {
 	var first, last []HOp
 	for _, d := range all {
 		for _, e := range ents {
-			first = append(first, HOp{d, e})
-			if d.Blk == 1 {
-				last = append(last, HOp{d, e})
+			first = append(first, HOp{H: d, Entry: e})
+			if d.Blk == 1 || d.Blk == blkBorrowedProposer {
+				last = append(last, HOp{H: d, Entry: e})
 			}
 		}
 		if o := hs.verdict(d); o.Accept {
@@ -603,9 +844,12 @@ func (x *ctx) exploreHist() {
 	// length 2
 	var pairs [][2]HOp
 	acc := func(d HHdr) bool { o := hs.verdict(d); return o.Accept || (o.CertRound && o.CertOK) }
+	// (the borrowed-credential headers and the two blocks of the borrowed proposer credential are paired as in the quick
+	// tier in both tiers)
+	added := func(d HHdr) bool { return d.Bor != "" || d.CBor != "" || d.Blk >= blkLender }
 	for _, a := range first {
 		for _, b := range last {
-			if r.Quick() {
+			if r.Quick() || added(a.H) || added(b.H) {
 				if a.Entry != b.Entry && a.Entry != "VerifyHeader" && b.Entry != "VerifyHeader" {
 					continue
 				}
@@ -623,11 +867,30 @@ func (x *ctx) exploreHist() {
 	}
 	r.ForEach(len(pairs), func(w, i int) { hs.checkSeq(pairs[i][:]) })
 	r.Count("history: sequences_of_length_2", int64(len(pairs)))
+	// a vote message first: the live vote path of the same Server verifies the lender's genuine vote, then a header
+	// (every borrowed-credential header and, as the control, the honest one) through every entry point
+	var live [][]HOp
+	kinds := []string{"precommit"}
+	if x.c.IsCert {
+		kinds = append(kinds, "certificate")
+	}
+	for _, k := range kinds {
+		for _, d := range all {
+			if d.Blk != 1 || d.UV != 0 || !(d.honest() || d.Bor != "" || d.CBor != "") {
+				continue
+			}
+			for _, e := range ents {
+				live = append(live, []HOp{{H: HHdr{Blk: 1}, Entry: liveEntry, Live: k}, {H: d, Entry: e}})
+			}
+		}
+	}
+	r.ForEach(len(live), func(w, i int) { hs.checkSeq(live[i]) })
+	r.Count("history: sequences_starting_with_a_live_vote_message", int64(len(live)))
 	// length 3 over the core sub-family
 	var core []HOp
 	for _, d := range hs.coreAlphabet() {
 		for _, e := range hs.entryNames(true) {
-			core = append(core, HOp{d, e})
+			core = append(core, HOp{H: d, Entry: e})
 		}
 	}
 	n := len(core)
@@ -651,5 +914,5 @@ func (x *ctx) exploreHist() {
 		total *= int64(n)
 	}
 	r.Count(fmt.Sprintf("history: sequences_of_length_%d_over_the_core_family", depth), total)
-	r.Sample(map[string]interface{}{"history": fmt.Sprintf("family of %d headers × %d entry points; e.g. %s", len(all), len(ents), hs.describeOps([]HOp{{HHdr{}, ents[0]}, {HHdr{Blk: 1, SigBlk: 1}, ents[0]}}, nil))})
+	r.Sample(map[string]interface{}{"history": fmt.Sprintf("family of %d headers × %d entry points; e.g. %s", len(all), len(ents), hs.describeOps([]HOp{{H: HHdr{}, Entry: ents[0]}, {H: HHdr{Blk: 1, SigBlk: 1}, Entry: ents[0]}}, nil))})
 }
